@@ -319,6 +319,13 @@ pub fn run(cfg: &Config) -> i32 {
                 Case::Block4 { mt: e.mt.clone(), text: tok::render(&m.fields, false, false), must_reject: None },
             ));
         }
+        // a value that ends in a terminator look-alike, as the LAST field of the block and inside a full envelope
+        // (the wrapper writes the block terminator right behind it)
+        for m in muts.iter().filter(|m| (m.kind.starts_with("ends-with") || m.kind.ends_with("-inside")) && m.at + 1 == m.fields.len()) {
+            let nb4 = format!("\n{}\n", tok::render(&m.fields, false, false));
+            let full = e.text.replacen(b4.as_str(), &nb4, 1);
+            cases.push((format!("MT{}/envelope-last-field:{}", e.mt, m.kind), Case::Full { mt: e.mt.clone(), text: full }));
+        }
         if exhaustive {
             // the same mutations with CRLF line ends and inside a full envelope
             for (i, m) in muts.iter().enumerate() {
